@@ -311,22 +311,53 @@ def b64encode_items(items: list) -> list:
     return out
 
 
-def b64decode_items(items: list) -> list:
-    """base64.b64decode(validate=False) for inputs whose characters are all in
-    the alphabet (plus trailing '=' padding); anything else is unsupported."""
+def b64decode_items(items: list, validate: bool = False) -> list:
+    """base64.b64decode: with validate=False characters outside the alphabet are discarded (each symbolic character
+    forks on "in the alphabet"); with validate=True the input must match [A-Za-z0-9+/]*={0,2} or binascii.Error is
+    raised.  A symbolic '=' is outside the model (Unsupported)."""
     import binascii
-    # validate=False discards characters outside the alphabet: done here for concrete ones (line endings)
-    items = [c for c in items if not (isinstance(c, int) and c != 61 and not _is_b64(c))]
+    kept = []
+    for c in items:
+        if isinstance(c, int) and c == 61:
+            kept.append(c)
+            continue
+        ok = _is_b64(c)
+        if not isinstance(ok, bool):
+            if bool(c == 61):
+                raise Unsupported('base64.b64decode of a symbolic padding character')
+            ok = bool(ok)
+        if ok:
+            kept.append(c)
+        elif validate:
+            raise binascii.Error('Non-base64 digit found')
+    items = kept
+    if validate:
+        seen_pad = False
+        for c in items:
+            if isinstance(c, int) and c == 61:
+                seen_pad = True
+            elif seen_pad:
+                raise binascii.Error('Non-base64 digit found')
     n = len(items)
     pad = 0
-    while pad < n and pad < 2 and items[n - 1 - pad] == 61:
+    while pad < n and isinstance(items[n - 1 - pad], int) and items[n - 1 - pad] == 61:
         pad += 1
     body = items[:n - pad]
     for c in body:
-        if not _is_b64(c):
-            raise Unsupported('base64.b64decode of non-alphabet symbolic data')
-    if (len(body) + pad) % 4 != 0 or len(body) % 4 == 1:
+        if isinstance(c, int) and c == 61:
+            if validate:
+                raise binascii.Error('Non-base64 digit found')
+            raise Unsupported('base64.b64decode(validate=False) with padding inside the data')
+    if validate and pad > 2:
+        raise binascii.Error('Non-base64 digit found')
+    # binascii.a2b_base64: the data characters decide; missing padding is an error, excess padding is ignored
+    need = {0: 0, 2: 2, 3: 1}.get(len(body) % 4)
+    if need is None or pad < need:
         raise binascii.Error('Incorrect padding')
+    if validate and not body and pad:
+        raise binascii.Error('Leading padding not allowed')
+    if validate and need and pad != need:
+        raise binascii.Error('Excess padding not allowed')       # strict mode of binascii.a2b_base64 (CPython 3.12)
     vals = [_from_b64(c) for c in body]
     out: list = []
     for i in range(0, len(vals), 4):
